@@ -16,3 +16,7 @@ import Solvor.Graph.Theorems
 #print axioms Solvor.Graph.chkTopoOpen_correct
 #print axioms Solvor.Graph.chkCondOpen_correct
 #print axioms Solvor.Graph.open_clauses_common
+#print axioms Solvor.Graph.tarjan_certifies
+#print axioms Solvor.Graph.tarjan_correct
+#print axioms Solvor.Graph.tarjan_correct_closed
+#print axioms Solvor.Graph.condense_correct
